@@ -224,9 +224,12 @@ def run_check(prop, tier, seed):
         for e in harness_errors:
             print("HARNESS-ERROR: %s" % e)
         return EXIT_HARNESS
-    print("OK property=%s tier=%s paths=%d obligations=%d discharged=%d inconclusive=%d wall=%.1fs" % (
-        prop, tier, evidence["coverage"]["paths_explored"], evidence["coverage"]["obligations"],
-        evidence["coverage"]["discharged"], evidence["coverage"]["inconclusive"], evidence["wall_s"]))
+    lost = sum(v for s in summaries for k, v in s.status.items() if k not in ("ok", "exception", "infeasible"))
+    print("OK property=%s tier=%s paths=%d obligations=%d discharged=%d inconclusive=%d undecided-branches=%d "
+          "inconclusive-paths=%d exhaustive=%s wall=%.1fs" % (
+              prop, tier, evidence["coverage"]["paths_explored"], evidence["coverage"]["obligations"],
+              evidence["coverage"]["discharged"], evidence["coverage"]["inconclusive"],
+              evidence["coverage"]["branch_feasibility_unknown"], lost, evidence["coverage"]["exhaustive"], evidence["wall_s"]))
     return EXIT_OK
 
 
